@@ -51,8 +51,10 @@ def qbytes_int_mm(activations: torch.Tensor, weights: torch.Tensor, output_scale
 
 
 def qbytes_int8pack_mm(activations: torch.Tensor, weights: torch.Tensor, output_scales: torch.Tensor) -> torch.Tensor:
-    # torch._weight_int8pack_mm expects a vector of scales
+    # torch._weight_int8pack_mm expects a vector of scales, one per output feature
     output_scales = output_scales.flatten()
+    if output_scales.numel() == 1:
+        output_scales = output_scales.expand(weights.shape[0]).contiguous()
     if activations.ndim == 2:
         return torch._weight_int8pack_mm(activations, weights, output_scales)
     else:
@@ -97,7 +99,8 @@ def qbytes_mm_impl_cpu(activations: torch.Tensor, weights: torch.Tensor, output_
     ):
         return qbytes_int_mm(activations, weights, output_scales)
     in_features = activations.shape[-1]
-    if activations.dtype == torch.bfloat16 and weights.dtype == torch.int8 and in_features % 4 == 0:
+    # Note: the CPU kernel reads the input features by blocks of 16
+    if activations.dtype == torch.bfloat16 and weights.dtype == torch.int8 and in_features % 16 == 0:
         if type(activations) != torch.Tensor:
             activations = activations.dequantize()
         return qbytes_int8pack_mm(activations, weights, output_scales)
